@@ -342,6 +342,32 @@ impl Client {
         }
     }
 
+    /// content of a stored rollback snapshot without wall-clock fields
+    pub fn snapshot_digest(&self, gid: &GroupId, name: &str) -> String {
+        match &self.mdk {
+            Mdk::Mem(m) => m.provider.storage().verif_snapshot_digest(gid, name).unwrap_or_default(),
+            Mdk::Sql(m, _) => m.provider.storage().verif_with_connection(|conn| {
+                let mut out: Vec<String> = Vec::new();
+                let mut st = conn.prepare("SELECT table_name, row_key, row_data FROM group_state_snapshots WHERE snapshot_name = ?1 AND group_id = ?2").unwrap();
+                let rows = st.query_map(rusqlite::params![name, gid.as_slice()], |r| Ok((r.get::<_, String>(0)?, r.get::<_, Vec<u8>>(1)?, r.get::<_, Vec<u8>>(2)?))).unwrap();
+                for r in rows.flatten() {
+                    if r.0 == "groups" {
+                        // the group row is a JSON tuple; drop last_message_processed_at (index 6) and last_self_update_at (index 12)
+                        let v: Value = serde_json::from_slice(&r.2).unwrap_or(Value::Null);
+                        let kept: Vec<String> = v.as_array().map(|a| a.iter().enumerate().filter(|(i, _)| *i != 6 && *i != 12).map(|(_, x)| x.to_string()).collect()).unwrap_or_default();
+                        out.push(format!("groups|{}", kept.join(",")));
+                    } else if r.0 == "group_relays" || r.0 == "openmls_own_leaf_nodes" {
+                        out.push(format!("{}|{}", r.0, hx(&r.2)));
+                    } else {
+                        out.push(format!("{}|{}|{}", r.0, hx(&r.1), hx(&r.2)));
+                    }
+                }
+                out.sort();
+                out.join(";")
+            }),
+        }
+    }
+
     pub fn dedup(&self, id: &EventId) -> Option<ProcessedMessage> {
         with_mdk!(self, m => m.provider.storage().find_processed_message_by_event_id(id)).ok().flatten()
     }
@@ -465,7 +491,9 @@ impl Client {
                 .map(|(n, _)| n)
                 .collect();
             stored.sort();
-            snaps.push(json!({"g": hx(gid.as_slice()), "queue": q, "stored": stored}));
+            // what a rollback to each stored snapshot would restore is part of the state
+            let digests: Vec<String> = stored.iter().map(|n| format!("{:016x}", h64(&self.snapshot_digest(gid, n)))).collect();
+            snaps.push(json!({"g": hx(gid.as_slice()), "queue": q, "stored": stored, "content": digests}));
             let mut eps = Vec::new();
             for e in 0..(g.epoch + 8) {
                 if let Ok(Some(_)) = with_mdk!(self, m => m.provider.storage().get_group_exporter_secret(gid, e)) {
